@@ -145,7 +145,10 @@ package cty
 //@   trusted
 //@   requires (and (wf_deep val) (wf_deep other))
 //@   ensures (and (is_bool_ty (vty result)) (wf_deep result) (not (is_null result)))
-//@   ensures (=> (and (not (is_marked val)) (not (is_marked other)) (or (not (is_known val)) (not (is_known other)))) (not (is_known result)))
+//@   ensures (=> (and (not (is_marked val)) (not (is_marked other)) (or (not (is_known val)) (not (is_known other)))) (or (not (is_known result)) (bool_payload result false)))
+// (an unknown operand answers False only where its refinement or type excludes the other operand; a bool
+// refinement records nullness only, so an unknown bool against a known non-null bool is never decided)
+//@   ensures (=> (and (not (is_marked val)) (not (is_marked other)) (is_bool_ty (vty val)) (is_bool_ty (vty other)) (or (and (not (is_known val)) (kn other)) (and (not (is_known other)) (kn val)) (and (not (is_known val)) (not (is_known other))))) (not (is_known result)))
 //@   ensures (=> (and (is_prim_ty (vty val)) (is_prim_ty (vty other)) (not (is_marked val)) (not (is_marked other))) (not (is_marked result)))
 //@   ensures (=> (and (is_number_ty (vty val)) (is_number_ty (vty other)) (kn val) (kn other) (not (is_marked val)) (not (is_marked other))) (and (not (is_marked result)) (bool_payload result (num_eq val other))))
 //@   ensures (forall ((k Any)) (! (=> (or (select (marks_of val) k) (select (marks_of other) k)) (select (marks_of result) k)) :pattern ((select (marks_of result) k))))
